@@ -8,6 +8,7 @@
 mod conc;
 mod interp;
 mod ops;
+mod qflat;
 mod qgen;
 mod rng;
 mod suites;
